@@ -24,7 +24,7 @@ THEOREMS = ["Lbfgsb.C12.linesearch_constants_are_reference", "Lbfgsb.C12.memory_
             "Lbfgsb.C12.theta_formula_is_reference", "Lbfgsb.C12.first_step_formula_is_reference", "Lbfgsb.C12.theta_model",
             "Lbfgsb.C12.iter0_step_cap", "Lbfgsb.C12.inv_chain_inverts_bfgs_chain", "Lbfgsb.C12.newton_point_is_two_loop",
             "Lbfgsb.C12.newton_point_is_two_loop_nopairs", "Lbfgsb.C12.complete_iteration_is_lbfgs", "Lbfgsb.C12.state_is_lbfgs",
-            "Lbfgsb.C12.run_iteration_is_lbfgs", "Lbfgsb.C12.state_is_lbfgs_data", "Lbfgsb.C12.run_iteration_is_lbfgs_data",
+            "Lbfgsb.C12.run_iteration_is_lbfgs", "Lbfgsb.C12.state_is_lbfgs_data", "Lbfgsb.C12.state_is_lbfgs_data0", "Lbfgsb.C12.run_iteration_is_lbfgs_data",
             "Lbfgsb.C12.complete_iteration_is_lbfgs_data"]
 MODULES = ["LbfgsbVerif.Props.C12", "LbfgsbVerif.Props.C12Newton", "LbfgsbVerif.Props.C12Run"]
 EPS = float(np.finfo(float).eps)
